@@ -29,6 +29,25 @@ def strategy(tier):
     return st.sampled_from(passes.PASS_NAMES).flatmap(passes.case_for)
 
 
+def enumerate_cases(tier):
+    """commute_controlled, both directions: a single-qubit gate at the very start (left) / end (right) of the tape, a blocking gate, and a
+    controlled gate it commutes with through control or target (boundary positions of the backwards / forwards search)."""
+    singles = [("PauliZ", []), ("S", []), ("T", []), ("RZ", [0.37]), ("PhaseShift", [0.9]), ("PauliX", []), ("RX", [0.53]), ("SX", []), ("PauliY", []), ("RY", [1.1])]
+    blockers = [("Hadamard", []), ("RY", [0.8]), ("RX", [0.4]), ("PauliZ", [])]
+    ctrls = [("CZ", [], [0, 1]), ("CNOT", [], [0, 1]), ("CNOT", [], [1, 0]), ("CRX", [0.7], [1, 0]), ("CRZ", [0.7], [0, 1]), ("CY", [], [1, 0]),
+             ("Toffoli", [], [0, 2, 1]), ("Toffoli", [], [1, 2, 0])]
+    for g, gp in singles:
+        for b, bp in blockers:
+            for c, cp, cw in ctrls:
+                wires = [0, 1] + ([2] if 2 in cw else [])
+                core = [{"op": g, "p": gp, "w": [0]}, {"op": b, "p": bp, "w": [0]}, {"op": c, "p": cp, "w": cw}]
+                yield {"pass": "commute_controlled", "opts": {"direction": "left"}, "ops": core, "wires": wires, "meas": []}
+                yield {"pass": "commute_controlled", "opts": {"direction": "right"}, "ops": core[::-1], "wires": wires, "meas": []}
+                # the same with an unrelated gate in front / behind, so that the moved gate is not at the boundary
+                pad = {"op": "Hadamard", "p": [], "w": [1]}
+                yield {"pass": "commute_controlled", "opts": {"direction": "left"}, "ops": [pad] + core, "wires": wires, "meas": []}
+
+
 def check(spec):
     import pennylane as qp
 
